@@ -5,4 +5,4 @@ From Coq Require Import Extraction ExtrOcamlBasic.
 From BS Require Import Base ArchModel ArchCodec.
 Extraction Language OCaml.
 Extraction "../ml/gen/arch_model.ml" run_popload run_validate type_catalogue class_catalogue
-  mkArch mkPols load_seq load_fwd load_vbool add_validation_error.
+  mkArch mkPols xml_arch load_seq load_fwd load_vbool add_validation_error.
